@@ -63,6 +63,9 @@ pub enum PK {
     Scalar,
     Sse,
     Avx,
+    /// not a planner: a fixed hand-assembled composite per length (see `hand_build`), so that the per-property sweeps
+    /// also run on transforms no planner produces (C08/C09/C07 quantify over "every transform")
+    Hand,
 }
 impl PK {
     pub const ALL: [PK; 4] = [PK::Auto, PK::Scalar, PK::Sse, PK::Avx];
@@ -73,9 +76,13 @@ impl PK {
             PK::Scalar => "scalar",
             PK::Sse => "sse",
             PK::Avx => "avx",
+            PK::Hand => "handbuilt",
         }
     }
     pub fn parse(s: &str) -> Option<PK> {
+        if s == "handbuilt" {
+            return Some(PK::Hand);
+        }
         PK::ALL.iter().copied().find(|p| p.name() == s)
     }
 }
@@ -100,6 +107,32 @@ pub enum AnyPlanner<T: FftNum> {
     Scalar(FftPlannerScalar<T>),
     Sse(FftPlannerSse<T>),
     Avx(FftPlannerAvx<T>),
+    Hand,
+}
+
+/// lengths for which `hand_build` knows a composite
+pub const HAND_LENS: [usize; 11] = [59, 83, 111, 118, 167, 177, 236, 359, 501, 61, 1436];
+/// One hand-assembled composite per length, chosen so that inner transforms need MORE in-place scratch than their own
+/// length (a planner-built transform that contains Bluestein's algorithm), sit at the second nesting level, or are
+/// wrapped by the constructors the planners never use that way.
+pub fn hand_build<T: FftNum>(n: usize, d: FftDirection) -> Arc<dyn Fft<T>> {
+    use rustfft::algorithm::butterflies::{Butterfly2, Butterfly3};
+    use rustfft::algorithm::*;
+    let planned = |m: usize| -> Arc<dyn Fft<T>> { FftPlannerScalar::<T>::new().plan_fft(m, d) };
+    match n {
+        59 => Arc::new(BluesteinsAlgorithm::new(59, planned(128))),
+        83 => Arc::new(BluesteinsAlgorithm::new(83, planned(166))), // inner = 2 x (Bluestein prime 83)
+        111 => Arc::new(Radix3::new_with_base(1, planned(37))),
+        118 => Arc::new(MixedRadix::new(planned(59), Arc::new(Butterfly2::new(d)))),
+        167 => Arc::new(RadersAlgorithm::new(planned(166))), // inner needs more scratch than its length
+        177 => Arc::new(GoodThomasAlgorithm::new(planned(59), Arc::new(Butterfly3::new(d)))),
+        236 => Arc::new(Radix4::new_with_base(1, planned(59))),
+        359 => Arc::new(RadersAlgorithm::new(planned(358))),
+        501 => Arc::new(MixedRadix::new(Arc::new(RadersAlgorithm::new(planned(166))), Arc::new(Butterfly3::new(d)))),
+        61 => Arc::new(RadersAlgorithm::new(planned(60))),
+        1436 => Arc::new(GoodThomasAlgorithm::new(Arc::new(RadersAlgorithm::new(planned(358))), planned(4))),
+        _ => panic!("harness: no hand-built composite of length {}", n),
+    }
 }
 impl<T: FftNum> AnyPlanner<T> {
     /// None when the dedicated SIMD planner declines (Err)
@@ -109,6 +142,7 @@ impl<T: FftNum> AnyPlanner<T> {
             PK::Scalar => Some(AnyPlanner::Scalar(FftPlannerScalar::new())),
             PK::Sse => FftPlannerSse::new().ok().map(AnyPlanner::Sse),
             PK::Avx => FftPlannerAvx::new().ok().map(AnyPlanner::Avx),
+            PK::Hand => Some(AnyPlanner::Hand),
         }
     }
     pub fn plan(&mut self, n: usize, d: FftDirection) -> Arc<dyn Fft<T>> {
@@ -117,11 +151,13 @@ impl<T: FftNum> AnyPlanner<T> {
             AnyPlanner::Scalar(p) => p.plan_fft(n, d),
             AnyPlanner::Sse(p) => p.plan_fft(n, d),
             AnyPlanner::Avx(p) => p.plan_fft(n, d),
+            AnyPlanner::Hand => hand_build::<T>(n, d),
         }
     }
     /// plan through the plan_fft_forward / plan_fft_inverse convenience methods
     pub fn plan_conv(&mut self, n: usize, d: FftDirection) -> Arc<dyn Fft<T>> {
         match (self, d) {
+            (AnyPlanner::Hand, _) => hand_build::<T>(n, d),
             (AnyPlanner::Auto(p), FftDirection::Forward) => p.plan_fft_forward(n),
             (AnyPlanner::Auto(p), FftDirection::Inverse) => p.plan_fft_inverse(n),
             (AnyPlanner::Scalar(p), FftDirection::Forward) => p.plan_fft_forward(n),
@@ -136,7 +172,7 @@ impl<T: FftNum> AnyPlanner<T> {
     #[allow(unused_variables)]
     pub fn plan_only(&mut self, n: usize, d: FftDirection) -> Option<String> {
         match self {
-            AnyPlanner::Auto(_) => None,
+            AnyPlanner::Auto(_) | AnyPlanner::Hand => None,
             AnyPlanner::Scalar(p) => Some(p.verif_plan_only(n, d)),
             #[cfg(feature = "sse")]
             AnyPlanner::Sse(p) => Some(p.verif_plan_only(n, d)),
@@ -148,7 +184,7 @@ impl<T: FftNum> AnyPlanner<T> {
     }
     pub fn cache_keys(&self) -> Option<Vec<(usize, FftDirection)>> {
         match self {
-            AnyPlanner::Auto(_) => None,
+            AnyPlanner::Auto(_) | AnyPlanner::Hand => None,
             AnyPlanner::Scalar(p) => Some(p.verif_cache_keys()),
             #[cfg(feature = "sse")]
             AnyPlanner::Sse(p) => Some(p.verif_cache_keys()),
